@@ -67,7 +67,7 @@ func writeManifest(path string) error {
 		})
 		served = append(served, id)
 	}
-	var na []map[string]string
+	na := []map[string]string{} // never null: the schema wants an array
 	claimed := map[string]bool{}
 	for _, id := range served {
 		claimed[id] = true
